@@ -17,7 +17,7 @@ warnings.simplefilter('ignore', FutureWarning)
 PID = 'C06'
 SOURCES = ['SoupVerif/Properties/C06.lean', 'SoupVerif/Lemmas/ParserProgress.lean', 'SoupVerif/Model/Parser.lean',
            'SoupVerif/Model/Regex.lean']
-RULE = ('patterns: every string of length <= k over a 34-symbol alphabet of CSS-significant characters (exhaustive), random '
+RULE = ('patterns: every string of length <= k over a 38-symbol alphabet of CSS-significant characters (exhaustive), random '
         'valid selectors of the whole grammar in random spellings, every kind of truncation and single-character mutation of '
         'them, escapes at the code-point boundaries (0, D800, DFFF, 10FFFF, 110000, FFFFFF, with and without terminator), NUL, '
         'unterminated strings / comments / brackets; custom maps with valid, malformed, chained, cyclic and case-colliding '
@@ -27,9 +27,11 @@ RULE = ('patterns: every string of length <= k over a 34-symbol alphabet of CSS-
         'catch-all "invalid character".')
 
 ALPHA = ['a', 'A', '1', '-', '_', ' ', '\n', '#', '.', ':', '[', ']', '(', ')', '=', '"', "'", '\\', '*', '|', ',', '>', '+', '~',
-         '/', '@', '&', '!', '^', '$', 'n', 'p', '\x00', 'é', '\r']
+         '/', '@', '&', '!', '^', '$', 'n', 'p', '\x00', 'é', '\r', '{', '}', '%']
 ESC = ['\\0 ', '\\0', '\\d800 ', '\\dfff', '\\10ffff ', '\\110000', '\\110000 ', '\\ffffff', '\\FFFFFF a', '\\1234567', '\\', '\\\n',
-       '\\\r\n', '\\g', '\\-', '\\31 23']
+       '\\\r\n', '\\g', '\\-', '\\31 23',
+       # characters that mean something to Python's own string formatting, reachable in names only through escapes
+       '\\{', '\\}', '\\7b ', '\\7d', '\\{0\\}', '\\{a\\}', '\\{\\}', '\\%s', '\\%', '\\%\\(x\\)s', '\\{0\\[5\\]\\}']
 ALLOWED = {'SelectorSyntaxError', 'NotImplementedError'}
 
 
@@ -63,8 +65,8 @@ def gen_patterns(rng, quick):
             out.append(s[:i] + rng.choice(ALPHA + ESC) + s[i:])
     for e in ESC:
         for ctx in ['%s', '#%s', '.%s', '[%s]', '[a=%s]', '[a="%s"]', ":lang(%s)", ':-soup-contains("%s")', 'a%s', ':not(%s)', '%s|a',
-                    ':--%s', '[a=%s', '"%s']:
-            out.append(ctx % e)
+                    ':--%s', '[a=%s', '"%s', ':%s', ':%s(', 'p:%s', ':%s(a)', '::%s', '@%s', ':not(:%s)', '[%s=a]', '%s|%s']:
+            out.append(ctx.replace('%s', e))
     for tw in ('\u0130', '\u0131', '\u017f', '\u212a'):
         out += [f'[a=b {tw}]', f'[a="b"{tw}]', f'[a=b{tw}]', f':{tw}s(a)', f':nth-child(2n+1 {tw}f a)', f':nth-la{tw}t-child(2)', f':d{tw}r(ltr)',
                 f':dir(r{tw}l)', f':lang({tw})', f'[{tw}=a {tw}]', f':nth-child({tw})', f':{tw}', f':not({tw})', f':-soup-conta{tw}ns(a)',
